@@ -518,10 +518,25 @@ impl History {
 
     fn registry_case(&self, cx: &mut Cx, lang: &'static str, via_bridge: bool) {
         // usually three ids; sometimes up to twenty; ids spaced so that they collide modulo small table sizes
-        let nids = if cx.rng.chance(1, 5) { cx.rng.range(4, 20) } else { 3 };
-        let stride = *cx.rng.pick(&[1usize, 1, 1, 16, 64, 256, 1 << 20]);
-        let first = (2 * (cx.idx as usize) + if via_bridge { 1 } else { 0 } + 40_000) * 32;
-        let idset: Vec<usize> = (0..nids).map(|k| (first + k) * stride).collect();
+        let nids = match cx.rng.below(20) {
+            0 => cx.rng.range(21, 40),
+            1..=3 => cx.rng.range(4, 20),
+            _ => 3,
+        };
+        let stride = *cx.rng.pick(&[1usize, 1, 1, 16, 64, 256, 1 << 20, 1 << 32]);
+        let first = (2 * (cx.idx as usize) + if via_bridge { 1 } else { 0 } + 40_000) * 64;
+        let mut idset: Vec<usize> = (0..nids).map(|k| (first + k).wrapping_mul(stride)).collect();
+        if cx.rng.chance(1, 10) {
+            // extreme ids: 0, usize::MAX, and a pair that collides in its low 32 bits (only in histories that own
+            // them: ids are process-wide, so they are derived from the case index where possible)
+            idset[0] = usize::MAX - (first + 1);
+            if nids > 1 {
+                idset[1] = (first + 5) | (1usize << 32);
+                if nids > 2 {
+                    idset[2] = first + 5;
+                }
+            }
+        }
         if nids > 3 {
             cx.count("histories over 4-20 store ids");
         }
@@ -564,12 +579,12 @@ impl History {
                 3 | 4 => {
                     if exists && cx.rng.chance(1, 25) {
                         // a burst of records: result buffers beyond the default capacity and beyond 40 hits
-                        let n = cx.rng.range(45, 120);
+                        let n = if cx.rng.chance(1, 6) { cx.rng.range(310, 420) } else { cx.rng.range(45, 120) };
                         hist.push(format!("add x{} 'metal <k>' to {}", n, id));
                         cx.ctx(format!("C20 lang={} history={:?}", lang, hist));
                         for k in 0..n {
                             let t = format!("metal {}", k);
-                            let (rid, ra) = (2000 + k, k % 7);
+                            let (rid, ra) = (if k % 3 == 0 { (1usize << 32) + k } else { 2000 + k }, k % 7);
                             if via_bridge {
                                 bridge::add_record(id, rid, &t, ra);
                             } else {
@@ -594,7 +609,7 @@ impl History {
                 }
                 5 => {
                     if exists {
-                        let lim = *cx.rng.pick(&[0, 1, 2, 3, 4, 12, 40, 41, 64, 100, 300]);
+                        let lim = *cx.rng.pick(&[0, 1, 2, 3, 4, 12, 40, 41, 64, 100, 300, 1000]);
                         hist.push(format!("limit({},{})", id, lim));
                         cx.ctx(format!("C20 lang={} history={:?}", lang, hist));
                         if via_bridge {
